@@ -925,7 +925,7 @@ def m_vec_remove(it, v, i):
 def m_vec_clear(it, v): deref_all(v)[:] = []; return []
 @model(r'(std::vec::Vec|thin_vec::ThinVec)::<.*>::truncate')
 def m_vec_trunc(it, v, n): del deref_all(v)[n:]; return []
-@model(r'(std::vec::Vec|thin_vec::ThinVec)::<.*>::retain::<.*>')
+@model(r'(std::vec::Vec|thin_vec::ThinVec)::<.*>::retain(_mut)?::<.*>')
 def m_vec_retain(it, v, clo):
     r = root_ref(v); l = r.get(); keep = []
     for i in range(len(l)):
